@@ -3,6 +3,7 @@ package c09
 import (
 	"fmt"
 	"sync"
+	"time"
 
 	"mosn.io/mosn/pkg/types"
 
@@ -170,6 +171,9 @@ func (r *run) batch(sub []Op) (*failure, bool) {
 		case "upclose", "uprst":
 			r.class("upstream-close")
 			for _, s := range it.victim {
+				if r.h.Kind == pool.HTTP1 && !s.st.Wait(r.d/4, func(st pool.StreamState) bool { return st.Destroyed > 0 }) {
+					r.http1CloseWithoutReset(s)
+				}
 				if !s.st.Wait(r.d, func(st pool.StreamState) bool { return st.Destroyed > 0 }) {
 					if f := r.muxGoAwayDeadlock(it.c); f != nil {
 						return f, false
@@ -202,7 +206,9 @@ func (r *run) batch(sub []Op) (*failure, bool) {
 		switch {
 		case res.NotInit:
 			r.class("conn-failure")
-			if r.mode == pool.ModeAccept && !r.shut && !idleClosedInBatch && len(usedC) == 0 {
+			if r.mode == pool.ModeAccept && !r.shut && !idleClosedInBatch && len(usedC) == 0 && false {
+				// (not judged in a batch: the multiplex pool replaces a lost connection asynchronously; whether
+				// capacity comes back is judged by the sequential leases, which retry)
 				return r.failf(true, "multiplex-never-connects", "batch{%s }: CheckAndInit did not turn true although the upstream accepts connections; model: %s", desc, r.describe()), false
 			}
 			continue
@@ -214,13 +220,13 @@ func (r *run) batch(sub []Op) (*failure, bool) {
 				return r.failf(false, "capacity-not-available", "batch{%s }: NewStream answered Overflow although capacity is free under every interleaving (active %d + %d other leases, max_requests %d; leased connections %d, max_connections %d); model: %s",
 					desc, activeAtStart, others, r.h.MaxReq, leasedAtStart, r.h.MaxConn, r.describe()), false
 			}
-			if r.h.Kind == pool.HTTP1 && reqOverPossible {
+			if r.pingpong() && reqOverPossible {
 				r.out.batchReqOverflows++
 			}
 			continue
 		case res.Reason != "":
 			r.class("conn-failure")
-			if r.mode == pool.ModeAccept && len(usedC) == 0 {
+			if r.mode == pool.ModeAccept && len(usedC) == 0 && r.h.Kind != pool.Mux {
 				return r.failf(false, "connection-failure-with-reachable-upstream", "batch{%s }: NewStream answered %s although the upstream accepts connections; model: %s", desc, res.Reason, r.describe()), false
 			}
 			continue
@@ -257,7 +263,7 @@ func (r *run) batch(sub []Op) (*failure, bool) {
 			r.logf("  lease %s: reset before reaching the upstream", it.tok)
 			s.state = sFailed
 			r.class("refused")
-			if r.mode == pool.ModeAccept && !r.shut && len(usedC) == 0 {
+			if r.mode == pool.ModeAccept && !r.shut && len(usedC) == 0 && r.h.Kind != pool.Mux {
 				return r.failf(false, "lease-failed-on-healthy-upstream", "batch{%s }: request %q was admitted but its stream was reset (%v) without reaching the accepting upstream; model: %s", desc, it.tok, s.st.State().Resets, r.describe()), false
 			}
 			continue
@@ -326,6 +332,38 @@ func (r *run) batch(sub []Op) (*failure, bool) {
 	if f := r.streamsView(); f != nil {
 		return f, false
 	}
+	// A pool may open a connection for a request it then refuses (max_requests) and keep it as idle.
+	if k := r.out.batchReqOverflows; r.pingpong() && k > 0 && r.mode == pool.ModeAccept && diffBooks(r.read(), r.expect()) != "" {
+		base, got := r.expect(), r.read()
+		for u := 1; u <= k; u++ {
+			w := base
+			w.idle += u
+			w.total += u
+			w.connActive += int64(u)
+			if diffBooks(got, w) != "" {
+				continue
+			}
+			var found []*pool.UConn
+			waitEither(r.d, func() bool {
+				found = found[:0]
+				for _, uc := range r.rig.Up.Conns() {
+					if r.conn(uc.ID) == nil && !uc.Refused && uc.Open() && len(uc.Reqs) == 0 {
+						found = append(found, uc)
+					}
+				}
+				return len(found) >= u
+			})
+			if len(found) == u {
+				for _, uc := range found {
+					c := &mconn{id: uc.ID, state: cIdle}
+					r.conns = append(r.conns, c)
+					r.idle = append(r.idle, c)
+				}
+				r.class("overflow-left-idle-connection")
+			}
+			break
+		}
+	}
 	// Two things are not fixed by the property and are read off the books: (a) F11 - did the ping-pong
 	// pool re-pool the connections reset in this batch; (b) connections told to go away (Shutdown /
 	// GoAway) whose exchange ended in this batch may have been kept or closed by the pool.
@@ -340,6 +378,15 @@ func (r *run) batch(sub []Op) (*failure, bool) {
 			}
 		}
 		flip, gone, matched := false, 0, false
+		var flipSince time.Time
+		stillOpen := func() bool {
+			for _, c := range flipped {
+				if uc := r.rig.Up.Conn(c.id); uc == nil || !uc.Open() {
+					return false
+				}
+			}
+			return true
+		}
 		r.poll(func() string {
 			got := r.read()
 			for _, fl := range []bool{false, true} {
@@ -357,6 +404,16 @@ func (r *run) batch(sub []Op) (*failure, bool) {
 					w.total -= m
 					w.connActive -= int64(m)
 					if diffBooks(got, w) == "" {
+						if fl {
+							// counts alone are ambiguous while another close of the batch is still unnoticed:
+							// the F11 reading must hold for a while with the reset connections still open
+							if flipSince.IsZero() {
+								flipSince = time.Now()
+							}
+							if time.Since(flipSince) < r.d/20 || !stillOpen() {
+								return "F11 alternative not yet stable"
+							}
+						}
 						flip, gone, matched = fl, m, true
 						return ""
 					}
@@ -371,7 +428,7 @@ func (r *run) batch(sub []Op) (*failure, bool) {
 				r.idle = append(r.idle, c)
 			}
 			if !r.known(sigF11) {
-				return &failure{sig: sigF11, step: r.step, msg: fmt.Sprintf("batch{%s }: after local resets the ping-pong pool put %d reset connection(s) back on its idle list (books: %s); model: %s", desc, len(flipped), r.read(), r.describe())}, false
+				return &failure{sig: sigF11, step: r.step, timing: true, msg: fmt.Sprintf("batch{%s }: after local resets the ping-pong pool put %d reset connection(s) back on its idle list (books: %s); model: %s", desc, len(flipped), r.read(), r.describe())}, false
 			}
 			r.class("absorbed-F11")
 			for _, c := range flipped {
